@@ -584,7 +584,8 @@ def sdp_gen_live(tier, rng):
             elif op in (2, 10):
                 calls.append([op, [dev["base"] + 4 * rng.randrange(0, size // 4 - 1), rng.getrandbits(32), rng.choice([1, 2, 4]), 32], ""])
             elif op in (3, 4, 5):
-                calls.append([op, [a], rnd_bytes(rng, ln if ln else 7)])
+                dl = ln if ln else 7
+                calls.append([op, [dev["base"] + rng.randrange(0, size - dl + 1)], rnd_bytes(rng, dl)])
             elif op == 7:
                 calls.append([op, [a], ""])
             else:
@@ -644,7 +645,7 @@ def sdp_oracle_live(case, ir):
                 out.append((sig + ":no-exception", f"call {k} sdp.{name}: cmd_exception is set, device answered {fail[tag]:#x}, got {short(res)}"))
         elif op == 8 and (res[0] != 0 or res[1] != ("i", dev["error_status"])):
             out.append((sig + ":status", f"call {k} read_status returned {short(res)}, the device sent {dev['error_status']:#x}"))
-        if res[0] == 0 and op in (1, 2, 6, 7, 8, 9, 10) and r[2][0] != (2 if dev["locked"] else 0):
+        if res[0] == 0 and res[1] not in (("l", []), ("i", 0)) and op in (1, 2, 6, 7, 8, 9, 10) and r[2][0] != (2 if dev["locked"] else 0):
             out.append((sig + ":hab", f"call {k} sdp.{name}: status_code {r[2][0]} with HAB {'locked' if dev['locked'] else 'unlocked'}"))
     if not out and bytes(mem).hex() != ir["dev"]["mem"]:
         out.append((f"sdp-live:{tr}:memory", "device memory after the session differs from what the successful writes say"))
@@ -766,6 +767,36 @@ def sdp_stream(rep, tier, rng):
                    extra={"outcome_kinds": {str(k): v for k, v in sorted(kinds.items())}})
 
 
+def gen_faults(tier, rng):
+    """fault-free traces of short single calls (both transports), then one fault at every position of each trace"""
+    fcases, fwhat = [], []
+    for name, mkcall in (FAULT_CALLS if tier == "thorough" else [fc_ for fc_ in FAULT_CALLS if fc_[0] not in ("receive sb", "read once")]):
+        for mps in ([8] if tier == "quick" else [8, 32]):
+            dev = mk_dev(rng, mps, 64)
+            dev["fuses"] = {"3": 0x0F0F, "4": 0x1234}
+            dev["keystore"] = "0102030405060708090a0b"
+            base = {"cmd_exception": 0, "mode": "live", "dev": dev, "calls": [mkcall(dev)], "mps_cache": mps}
+            r = vlib.run_impl("c10_impl.py", {"cases": [dict(base, transport="serial"), dict(base, transport="hid")]})["cases"]
+            stream = b"".join(bytes.fromhex(x) for x in r[0]["reads"])
+            items = ref.parse_stream(stream)
+            reports = [bytes.fromhex(x) for x in r[1]["reads"]]
+            sfaults = serial_faults(stream, items, tier, rng)
+            hfaults = hid_faults(reports, tier, rng)
+            for ce in (0, 1):
+                sc = {"cmd_exception": ce, "mode": "script", "calls": base["calls"], "mps_cache": mps, "time_limit": 5}
+                fcases.append(dict(sc, transport="serial", stream=stream.hex()))
+                fwhat.append(("none", f"{name}: no fault"))
+                for fc, what, s in sfaults:
+                    fcases.append(dict(sc, transport="serial", stream=s.hex()))
+                    fwhat.append((fc, f"{name}: {what}"))
+                fcases.append(dict(sc, transport="hid", reports=[x.hex() for x in reports]))
+                fwhat.append(("none", f"{name}: no fault"))
+                for fc, what, rs in hfaults:
+                    fcases.append(dict(sc, transport="hid", reports=[x.hex() for x in rs]))
+                    fwhat.append((fc, f"{name}: {what}"))
+    return fcases, fwhat
+
+
 # ------------------------------------------------------------------ the check
 def run(tier):
     rep = vlib.Report(PID, tier)
@@ -780,6 +811,8 @@ def run(tier):
     model_ok, mout = vlib.coq_make(["Model/MbootModel.vo"])
     if THEOREMS:
         vlib.check_theorems(rep, PID, THEOREMS, ["Proofs/MbootProofs.vo"])
+        if tier == "thorough":
+            vlib.coqchk(rep, PID, THEOREMS)        # independent re-check of the compiled theorem closure
     vlib.audit(rep)
     vlib.log(f"  [proofs] build + {len(THEOREMS)} property theorems + audit: {time.time() - t0:.1f} s")
 
@@ -878,31 +911,7 @@ def run(tier):
                    extra={"api_calls": sum(len(c["calls"]) for c in live)})
 
     # ---- fault injection on short single-call traces
-    fcases, fwhat = [], []
-    for name, mkcall in (FAULT_CALLS if tier == "thorough" else [fc_ for fc_ in FAULT_CALLS if fc_[0] not in ("receive sb", "read once")]):
-        for mps in ([8] if tier == "quick" else [8, 32]):
-            dev = mk_dev(rng, mps, 64)
-            dev["fuses"] = {"3": 0x0F0F, "4": 0x1234}
-            dev["keystore"] = "0102030405060708090a0b"
-            base = {"cmd_exception": 0, "mode": "live", "dev": dev, "calls": [mkcall(dev)], "mps_cache": mps}
-            r = vlib.run_impl("c10_impl.py", {"cases": [dict(base, transport="serial"), dict(base, transport="hid")]})["cases"]
-            stream = b"".join(bytes.fromhex(x) for x in r[0]["reads"])
-            items = ref.parse_stream(stream)
-            reports = [bytes.fromhex(x) for x in r[1]["reads"]]
-            sfaults = serial_faults(stream, items, tier, rng)
-            hfaults = hid_faults(reports, tier, rng)
-            for ce in (0, 1):
-                sc = {"cmd_exception": ce, "mode": "script", "calls": base["calls"], "mps_cache": mps, "time_limit": 5}
-                fcases.append(dict(sc, transport="serial", stream=stream.hex()))
-                fwhat.append(("none", f"{name}: no fault"))
-                for fc, what, s in sfaults:
-                    fcases.append(dict(sc, transport="serial", stream=s.hex()))
-                    fwhat.append((fc, f"{name}: {what}"))
-                fcases.append(dict(sc, transport="hid", reports=[x.hex() for x in reports]))
-                fwhat.append(("none", f"{name}: no fault"))
-                for fc, what, rs in hfaults:
-                    fcases.append(dict(sc, transport="hid", reports=[x.hex() for x in rs]))
-                    fwhat.append((fc, f"{name}: {what}"))
+    fcases, fwhat = gen_faults(tier, rng)
     fir, fmv = both("c10f", fcases)
     wmap = {id(c): w[1] for c, w in zip(fcases, fwhat)}
     def is_known(sig):
@@ -950,7 +959,7 @@ def run(tier):
                       "hand model Model/MbootModel.v tied by correspondence on every observable",
                       "DeviceBase stubs (pyserial read semantics, immediate time-out) stand for the UART / USB drivers",
                       "reference bootloader tools/impl/c10_refdev.py = Coq dev_command/sdev_recv/hdev_recv (compared state by state)"],
-        checker_cmd="coqc -R . V Props/C10/*.v (after make Proofs/MbootProofs.vo)",
+        checker_cmd="coqc -R . V Props/C10/*.v (after make Proofs/MbootProofs.vo; thorough: coqchk -o over the closure)",
         assumptions=["wall-clock time-outs are not modelled: an exhausted device stream raises the time-out at once",
                      "USB-HID has no integrity check at this layer: payload corruption on HID is outside the fault model",
                      "arguments are non-negative integers"])
